@@ -80,7 +80,7 @@ def undecided_zone(pps, excl, cfg):
                 prev = s
                 continue
             prev = None
-            if R.nullable(s):
+            if R.seg_nullable(s):
                 return 'nullable segment'
     return None
 
